@@ -1455,7 +1455,9 @@ pub fn gen_c11_late(seed: u64, _thorough: bool) -> Plan {
         config,
         knobs: KnobsPlan::simple(),
         flows: vec![],
-        extra: serde_json::json!({ "delay_ms": *g.pick(&[300u64, 2_000, 5_000, 9_000, 11_000, 12_000, 15_000, 20_000, 25_000, 28_000]), "silent": g.chance(50), "k": g.range(1, 4), "other_source": g.chance(30), "sub_seed": g.next() }),
+        // (one plan in eight: the session is a burst of 1100-2500 datagrams sent back to back - more than any queue between the
+        // server's listener and the session's task holds - before the copies of its first datagrams arrive)
+        extra: serde_json::json!({ "delay_ms": *g.pick(&[300u64, 2_000, 5_000, 9_000, 11_000, 12_000, 15_000, 20_000, 25_000, 28_000]), "silent": g.chance(50), "k": if seed % 8 == 5 { g.range(1100, 2500) } else { g.range(1, 4) }, "other_source": g.chance(30), "sub_seed": g.next() }),
     }
 }
 
@@ -1495,8 +1497,12 @@ pub fn execute_c11_late(plan: &Plan) -> Outcome {
         for pid in 1..=k {
             let w = mk(&mut g, pid, format!("late-copy-session-datagram-{pid}").as_bytes());
             let _ = a.send_to(&w, server_addr()).await;
-            wires.push(w);
-            tokio::time::sleep(Duration::from_millis(20)).await;
+            if wires.len() < 4 {
+                wires.push(w);
+            }
+            if k <= 4 {
+                tokio::time::sleep(Duration::from_millis(20)).await;
+            }
         }
         tokio::time::sleep(Duration::from_millis(delay_ms)).await;
         for w in &wires {
@@ -1507,7 +1513,7 @@ pub fn execute_c11_late(plan: &Plan) -> Outcome {
         let _ = a.send_to(&fresh, server_addr()).await;
         tokio::time::sleep(Duration::from_millis(300)).await;
         let at_target: Vec<Vec<u8>> = log.lock().unwrap().udp.iter().map(|(_, d)| d.clone()).collect();
-        for pid in 1..=k {
+        for pid in (1..=k).filter(|p| *p <= 4 || p % 97 == 0 || *p == k) {
             let p = format!("late-copy-session-datagram-{pid}").into_bytes();
             let n = at_target.iter().filter(|d| **d == p).count();
             if n > 1 {
